@@ -122,15 +122,32 @@ def wiring_rule(ctx: Ctx, rid: str, which=("data", "instruction"), fields=None) 
             f = m.method(cn, "__init__", own=True)
             ffl = normal_flow(m, f)
             fpr = ffl.cprinter
-            stores = {fpr.show(e.expr.targets[0]).split("@")[0]: e for e in ffl.effects if e.kind == "store" and isinstance(e.expr, ast.Assign)}
+            stores = {fpr.show(e.expr.targets[0] if isinstance(e.expr, ast.Assign) else e.expr.target).split("@")[0]: e for e in ffl.effects
+                      if e.kind == "store" and isinstance(e.expr, (ast.Assign, ast.AnnAssign))}
             pc = stores.get("P0.replacement_strategy_class")
             rs = ast.Name(id="replacement_strategy", ctx=ast.Load())
             lru = ast.Compare(left=rs, ops=[ast.Eq()], comparators=[ast.Constant(value="lru")])
             ok = False
             if pc is not None and "replacement_strategy" in f.params:
-                a_ = fpr.resolve_under(pc.expr.value, fpr._bool(lru))
-                b_ = fpr.resolve_under(pc.expr.value, fpr._bool(lru, False))
-                ok = fpr.show(a_) == "LRU" and fpr.show(b_) == "PLRU"
+                # every store to the attribute that can happen under the assumption must store the expected class (one store of a
+                # conditional value, an if / else with one store per arm, an inlined selection helper: all the same)
+                from .flowspec import _cond_ast
+
+                def value_under(assume) -> set:
+                    vals: set = set()
+                    for e in ffl.effects:
+                        if not (e.kind == "store" and isinstance(e.expr, (ast.Assign, ast.AnnAssign))):
+                            continue
+                        tg = e.expr.targets[0] if isinstance(e.expr, ast.Assign) else e.expr.target
+                        if fpr.show(tg).split("@")[0] != "P0.replacement_strategy_class" or e.expr.value is None:
+                            continue
+                        if e.cond:
+                            t_ = fpr._tables([fpr._mk("and", [fpr._bool(_cond_ast(e.cond)), assume])])
+                            if t_ is not None and t_[1][0] == 0:
+                                continue
+                        vals.add(fpr.show(fpr.resolve_under(e.expr.value, assume)))
+                    return vals
+                ok = value_under(fpr._bool(lru)) == {"LRU"} and value_under(fpr._bool(lru, False)) == {"PLRU"}
             r.check(ok, f"{cn}|policy-class", f.loc(), f"{cn} no longer maps 'lru' -> LRU, else PLRU")
             cache_calls = [c for c in calls_in(f.node) if isinstance(c.func, (ast.Name, ast.Subscript)) and ast.unparse(c.func.value if isinstance(c.func, ast.Subscript) else c.func) == "Cache"]
             cinit = m.method("Cache", "__init__")
